@@ -412,6 +412,27 @@ def check(prop, tier):
             sh(["lake", "build", "sfdriver"], cwd=LEAN, timeout=3000)
     res = step_harness(spec, tier, seed, log) if os.path.exists(drv) else None
     harness_ok = res is not None
+    # thorough tier: further passes of the whole harness under the following seeds (other random inputs, schedules and
+    # timings; the scripted cases repeat, so "distinct" is summed per pass)
+    passes = int(os.environ.get("VERIF_PASSES") or spec.get("thorough_passes", 1)) if tier == "thorough" else 1
+    for k in range(1, passes):
+        if not harness_ok or (res.get("findings") or []):
+            break
+        more = step_harness(spec, tier, seed + k, log)
+        if more is None:
+            harness_ok = False
+            break
+        for key in ("evaluations", "distinct_nontrivial", "model_calls", "wall_s"):
+            res[key] = (res.get(key) or 0) + (more.get(key) or 0)
+        for key in ("findings", "samples", "notes", "skipped"):
+            res[key] = (res.get(key) or []) + (more.get(key) or [])
+        for key, v in (more.get("distribution") or {}).items():
+            res["distribution"][key] = res["distribution"].get(key, 0) + v
+        if more.get("go_test_rc"):
+            res["go_test_rc"] = more["go_test_rc"]
+        res["go_test_tail"] = (res.get("go_test_tail") or "") + (more.get("go_test_tail") or "")
+    if passes > 1 and res is not None:
+        res.setdefault("notes", []).append(f"thorough tier: {passes} harness passes planned, seeds {seed}..{seed + passes - 1}")
     findings = (res.get("findings") or []) if res else []
     oracle_fails = [f for f in findings if f["kind"] == "oracle"]
     corr_fails = [f for f in findings if f["kind"] == "correspondence"]
